@@ -110,6 +110,12 @@ type zzTarget struct {
 // factory / instance id: every later request must yield the same pointer.
 var zzSeen map[int]*zzObj
 
+// zzTarget2 lists an optional field before the required one.
+type zzTarget2 struct {
+	B interface{} `dependency:"?b"`
+	A interface{} `dependency:"a"`
+}
+
 func zzSame(got interface{}, fid, inv int) bool {
 	o, ok := got.(*zzObj)
 	if !ok || o == nil || o.fid != fid {
@@ -136,7 +142,9 @@ func ZZVerifC10Hist() {
 	var facs []*zzFactory
 	nn := nd.Param("N", 2) // names in use
 	maxDeps := nd.Param("E", 1)
+	maxFac := nd.Param("MF", 2)
 	mkFactory := func() *zzFactory {
+		nd.Assume(nfac < maxFac)
 		f := &zzFactory{id: nfac, fail: nd.Bool("fail")}
 		nfac++
 		ne := nd.Choose("nedges", maxDeps+1)
@@ -149,7 +157,10 @@ func ZZVerifC10Hist() {
 	for n := 0; n < nn; n++ {
 		ek := nd.Choose("explicit", 3)
 		dk := nd.Choose("default", 3)
-		explicitFirst := nd.Choose("order", 2) == 0
+		explicitFirst := true
+		if ek != 0 && dk != 0 {
+			explicitFirst = nd.Choose("order", 2) == 0
+		}
 		defExplicit := func() {
 			switch ek {
 			case 1:
@@ -188,7 +199,29 @@ func ZZVerifC10Hist() {
 	}
 	reqs := nd.Param("R", 2)
 	for i := 0; i < reqs; i++ {
-		if nd.Choose("req", 2) == 0 {
+		reqKind := nd.Choose("req", 3)
+		if reqKind == 2 {
+			// injection into a struct whose optional field precedes the
+			// required one
+			var t zzTarget2
+			err := dp.InjectTo(&t)
+			wantErr := false
+			if nn >= 2 {
+				if fid, inv, ok := ref.get(1); ok {
+					nd.Assert(zzSame(t.B, fid, inv), "C10/inject2-optional-field")
+				} else {
+					nd.Assert(t.B == nil, "C10/inject2-optional-missing-left")
+				}
+			}
+			if fid, inv, ok := ref.get(0); ok {
+				nd.Assert(zzSame(t.A, fid, inv), "C10/inject2-required-field")
+			} else {
+				wantErr = true
+			}
+			nd.Assert((err != nil) == wantErr, "C10/inject2-result")
+			continue
+		}
+		if reqKind == 0 {
 			n := nd.Choose("name", nn)
 			got, err := dp.Get(zzNames[n])
 			fid, inv, ok := ref.get(n)
